@@ -206,10 +206,14 @@ func judge(p prediction, got yang.YangRange, fd int, errText string) *fail {
 		return nil
 	}
 	if rejected {
+		// The statement speaks of the set *written* and of its *presentation* sorted, disjoint and
+		// coalesced: parts written out of ascending order or overlapping are inside its domain (the
+		// library normalises them), so they must be accepted like any other subset of the parent.
+		fp := "rejects-valid"
 		if p.mayReject {
-			return nil
+			fp = "rejects-valid-written-unsorted-or-overlapping"
 		}
-		return &fail{"rejects-valid", p.set.String(), errText}
+		return &fail{fp, p.set.String(), errText}
 	}
 	g, fdOK := toSet(got, fd)
 	if !num.Normalise(g).Equal(p.set) {
@@ -314,7 +318,10 @@ func run(c *core.Ctx) {
 		if c.Expired() {
 			return
 		}
-		caseNo, _ := c.Begin()
+		caseNo, run := c.Begin()
+		if c.Skip(caseNo, run, in) {
+			return
+		}
 		c.Exec()
 		c.Validate()
 		c.Edge(int64(len(in.Chain)))
@@ -399,9 +406,19 @@ func run(c *core.Ctx) {
 				}
 			}
 			if c.Tier == "thorough" || i >= len(pf) {
-				for _, a := range pc {
-					for _, b := range pc {
-						if a < b {
+				kids := pc
+				if c.Tier != "thorough" {
+					kids = nil // quick: single values and the ranges between neighbours of the core grid
+					for _, a := range coreG {
+						kids = append(kids, a)
+					}
+					for i := 0; i+1 < len(coreG); i++ {
+						kids = append(kids, coreG[i]+".."+coreG[i+1], coreG[i+1]+".."+coreG[i])
+					}
+				}
+				for _, a := range kids {
+					for _, b := range kids {
+						if a != b {
 							one(mk(pr, a+"|"+b))
 						}
 					}
@@ -486,6 +503,6 @@ func init() {
 	core.Register(&core.Prop{
 		ID: "C10", Variant: "plain", Shards: shards, Run: run, Replay: replay,
 		Rule:        "for each of the 8 integer types, string length and decimal64 at the chosen fraction-digits: every restriction string with <= 2 parts (v or v..w) over a boundary grid (min, max, type bounds and +-1, 0, +-1 quantum, 2, -0, ...), 3 parts over a 6-value core grid, white-space layout variants and a syntactic-fault list; every depth-2 chain (accepted parent x child) and depth-3 chain over the core grid; run through typedef/leaf text + Process (Entry.Type.Range/Length) and through ParseRangesInt/ParseRangesDecimal, and compared with big.Int interval sets: accepted => exactly the written set, sorted/disjoint/coalesced, bounds at the type's fraction digits; syntactically invalid, out-of-order or wider-than-parent => error; RFC-valid and within the parent => accepted. states = distinct (type, chain); non-trivial = not rejected by the reference",
-		Assumptions: []string{"boundary grids stand in for the numeric domains", "restrictions that RFC 7950 forbids only for their layout (unsorted or overlapping parts) may be accepted or rejected, but must denote the written set when accepted", "hexadecimal/octal notations, which the library documents as accepted, are not generated"},
+		Assumptions: []string{"boundary grids stand in for the numeric domains", "parts written out of ascending order or overlapping are inside the statement's domain (it speaks of the written set and of its sorted, coalesced presentation) and must be accepted when within the parent", "hexadecimal/octal notations, which the library documents as accepted, are not generated"},
 	})
 }
